@@ -839,7 +839,17 @@ func AggregateWriteVariants(w io.Writer, start, end int, appendSNP bool, thresho
 	}
 
 	sort.SliceStable(order, func(i, j int) bool {
-		return order[i].Position < order[j].Position || (order[i].Position == order[j].Position && order[i].Changetype < order[j].Changetype) || (order[i].Position == order[j].Position && order[i].Changetype == order[j].Changetype && order[i].QueAl < order[j].QueAl)
+		if order[i].Position != order[j].Position {
+			return order[i].Position < order[j].Position
+		}
+		if order[i].Changetype != order[j].Changetype {
+			return order[i].Changetype < order[j].Changetype
+		}
+		if order[i].QueAl != order[j].QueAl {
+			return order[i].QueAl < order[j].QueAl
+		}
+		// the keys come out of a map in random order: break remaining ties on the printed form
+		return order[i].Representation < order[j].Representation
 	})
 
 	for _, V := range order {
